@@ -4,7 +4,7 @@ trace validation), turning TLC counterexamples into replay scripts, writing evid
 No property logic lives here: formulas are in spec/Props*.tla and are evaluated by TLC only."""
 import fcntl, hashlib, json, os, re, shutil, subprocess, sys, time
 
-VERIF = "/verif"
+VERIF = os.path.dirname(os.path.dirname(os.path.realpath(__file__)))     # /verif, or a snapshot of it (vp run)
 SPEC = f"{VERIF}/spec"
 WORK = f"{VERIF}/work"
 HARNESS = f"{VERIF}/harness"
@@ -44,7 +44,7 @@ def setup():
     """javac the Dec18 override, parse the specification, build the harness (offline)."""
     os.makedirs(WORK, exist_ok=True)
     os.makedirs(CLASSES, exist_ok=True)
-    rc, out = sh(f"javac -cp /opt/veriftools/tla/tla2tools.jar -d {CLASSES} {SPEC}/Dec18.java")
+    rc, out = sh(f"javac -cp /opt/veriftools/tla/tla2tools.jar -d {CLASSES} {SPEC}/Dec18.java {SPEC}/Dec18Check.java")
     if rc != 0:
         raise ToolError("javac failed:\n" + out)
     build_harness()
@@ -53,9 +53,10 @@ def setup():
 def build_harness():
     """(Re)build the harness against /repo's current working tree; serialised by a lock file."""
     os.makedirs(WORK, exist_ok=True)
-    if not os.path.exists(f"{CLASSES}/Dec18.class"):
+    if not os.path.exists(f"{CLASSES}/Dec18.class") or not os.path.exists(f"{CLASSES}/Dec18Check.class") \
+            or os.path.getmtime(f"{SPEC}/Dec18.java") > os.path.getmtime(f"{CLASSES}/Dec18.class"):
         os.makedirs(CLASSES, exist_ok=True)
-        rc, out = sh(f"javac -cp /opt/veriftools/tla/tla2tools.jar -d {CLASSES} {SPEC}/Dec18.java")
+        rc, out = sh(f"javac -cp /opt/veriftools/tla/tla2tools.jar -d {CLASSES} {SPEC}/Dec18.java {SPEC}/Dec18Check.java")
         if rc != 0:
             raise ToolError("javac failed:\n" + out)
     with open(f"{WORK}/build.lock", "w") as lk:
